@@ -180,7 +180,7 @@ func runOne(self string, spec *Spec, tier string, seed int64, args []string, lim
 	cmd.Stdout = &stderr
 	cmd.Env = os.Environ()
 	if spec.Race {
-		cmd.Env = append(cmd.Env, "GORACE=halt_on_error=0 log_path="+filepath.Join(raceDir, "race"))
+		cmd.Env = append(cmd.Env, "GORACE=halt_on_error=0 exitcode=0 log_path="+filepath.Join(raceDir, "race"))
 	}
 	if err := cmd.Start(); err != nil {
 		return 2, err.Error(), false
@@ -214,7 +214,9 @@ func RunParent(self string, spec *Spec, tier string, seed int64, replayPath stri
 	start := time.Now()
 	work := filepath.Join(VerifDir, "work", fmt.Sprintf("%s-%d", spec.ID, os.Getpid()))
 	os.MkdirAll(work, 0o755)
-	defer os.RemoveAll(work)
+	if os.Getenv("VERIF_KEEP_WORK") == "" {
+		defer os.RemoveAll(work)
+	}
 
 	if spec.Race {
 		raceDir = filepath.Join(work, "races")
